@@ -187,6 +187,18 @@ Theorem C18_stopped_exactly_once :
 Proof. exact stopped_exactly_once_lemma. Qed.
 Print Assumptions C18_stopped_exactly_once.
 
+(* start/stop bookkeeping: every registration is matched by exactly one death in on_start or
+   one ordered stop; nothing is stopped twice; stop_remaining_actors has nothing to do *)
+Theorem C18_started_balance :
+  forall o, exists z s,
+      run_command o = (Val z, s) /\
+      (forall c, cntc c (starts_of (events s)) =
+                 cntc c (died_of (events s)) + cntc c (stops_of (events s))) /\
+      (forall c, cntc c (stops_of (events s)) <= 1) /\
+      remains_of (events s) = [].
+Proof. exact started_balance_lemma. Qed.
+Print Assumptions C18_started_balance.
+
 (* T5: the state is saved exactly once iff restore_state is enabled and the core started;
    the save happens after all frontends stopped and before core, backends, audio, mixer. *)
 Theorem C18_state_saved_once :
